@@ -60,3 +60,81 @@ package verifspec
 //@   requires len(global("go/build.Default").ReleaseTags) >= 20
 //@   ensures len(global("build/versionhack.releaseTags")) == 20
 //@   ensures forall(k, 0, 20, global("build/versionhack.releaseTags")[k] == old(global("go/build.Default")).ReleaseTags[k])
+
+//@ extern build.joinEmbedPatternPos
+//@   param m1 m2
+//@   assigns nothing
+
+// TestPackage: the "package + internal tests" variant keeps the .inc.js files and the build context of the package
+// (.inc.js files of a selected package directory are always included).
+//@ func build.PackageData.TestPackage
+//@ property C18
+//@   requires p != nil && p.Package != nil
+//@   ensures result != nil && result.IsTest
+//@   ensures len(result.JSFiles) == len(p.JSFiles) && samearr(result.JSFiles, p.JSFiles)
+//@   ensures result.bctx == p.bctx
+
+//@ func build.PackageData.XTestPackage
+//@ property C18
+//@   requires p != nil && p.Package != nil
+//@   ensures result != nil && result.IsTest
+//@   ensures result.bctx == p.bctx
+
+// ---- .inc.js selection (compiler/incjs): by name only -- never by build tags, GOOS or GOARCH.
+//@ pure hasSuffix(s string, t string) bool = len(s) >= len(t) && forall(k, 0, len(t), s[len(s) - len(t) + k] == t[k])
+//@ pure fiName(f int) int
+//@ pure fiIsDir(f int) bool
+//@ extern strings.HasSuffix
+//@   param s suffix
+//@   ensures result == hasSuffix(s, suffix)
+//@ extern io/fs.FileInfo.Name
+//@   param f
+//@   assigns nothing
+//@   ensures str(result) == fiName(ref(f)) && samestr(result, strof(fiName(ref(f))))
+//@ extern io/fs.FileInfo.IsDir
+//@   param f
+//@   assigns nothing
+//@   ensures result == fiIsDir(ref(f))
+//@ extern io/fs.FileInfo.Mode
+//@   param f
+//@   assigns nothing
+//@ extern io/fs.FileMode.IsRegular
+//@   param m
+//@   assigns nothing
+//@ extern io/fs.FileMode.IsDir
+//@   param m
+//@   assigns nothing
+//@ extern io/fs.FileInfo.ModTime
+//@   param f
+//@   assigns nothing
+//@ extern golang.org/x/tools/go/buildutil.JoinPath
+//@   param ctxt a b
+//@   assigns nothing
+//@ extern golang.org/x/tools/go/buildutil.OpenFile
+//@   param ctxt path
+//@   results f err
+//@   assigns nothing
+//@   ensures err == nil ==> f != nil
+//@ extern io.ReadAll
+//@   param r
+//@   results content err
+//@   assigns nothing
+//@ extern io.Closer.Close
+//@   param c
+//@   assigns nothing
+//@ extern io.ReadCloser.Close
+//@   param c
+//@   assigns nothing
+
+//@ func compiler/incjs.isIncJS
+//@ property C18
+//@   ensures result == hasSuffix(filename, ".inc.js")
+
+// fromFileInfo: a directory entry contributes a file exactly when it is a regular-directory entry (not a directory) whose
+// name ends in .inc.js and does not start with '_' or '.'; in every other case it is skipped without error.
+//@ func compiler/incjs.fromFileInfo
+//@ property C18
+//@   results res err
+//@   requires file != nil
+//@   ensures !(hasSuffix(strof(fiName(ref(file))), ".inc.js") && !fiIsDir(ref(file)) && strof(fiName(ref(file)))[0] != 95 && strof(fiName(ref(file)))[0] != 46) ==> res == nil && err == nil
+//@   ensures hasSuffix(strof(fiName(ref(file))), ".inc.js") && !fiIsDir(ref(file)) && strof(fiName(ref(file)))[0] != 95 && strof(fiName(ref(file)))[0] != 46 ==> (res != nil || err != nil)
